@@ -124,6 +124,13 @@ def r06_3(chk):
         if isinstance(t, ast.BinOp) and isinstance(t.op, ast.Mod) and isinstance(t.left, ast.Constant) and isinstance(t.right, ast.Tuple) and t.left.value.startswith("%s") and isinstance(t.right.elts[0], ast.Constant):
             sig = t.right.elts[0].value
             sig_node = t
+        # f"%{name}" / "%" + name
+        if sig is None and isinstance(t, ast.JoinedStr) and len(t.values) >= 2 and isinstance(t.values[0], ast.Constant) and isinstance(t.values[0].value, str) and t.values[0].value.strip() and isinstance(t.values[1], ast.FormattedValue):
+            sig = t.values[0].value.strip()
+            sig_node = t
+        if sig is None and isinstance(t, ast.BinOp) and isinstance(t.op, ast.Add) and isinstance(t.left, ast.Constant) and isinstance(t.left.value, str) and len(t.left.value) == 1 and not t.left.value.isspace():
+            sig = t.left.value
+            sig_node = t
     pf_ = chk.repo.module("parse/fasta.py")
     gp = pf_.func("MinimalGdeParser")
     lab = [kw.value.value for c in ast.walk(gp) if isinstance(c, ast.Call) for kw in c.keywords if kw.arg == "label_characters" and isinstance(kw.value, ast.Constant)]
@@ -287,7 +294,27 @@ def r06_7(chk):
     wraps = [c for c in walk_no_nested(f2) if isinstance(c, ast.Call) and norm(c.func) == "textwrap.wrap"]
     good = bool(wraps) and "seqs[name]" in norm(wraps[0].args[0])
     chk.decide(good, "R06.7", key("format/fasta.py", "seqs_to_fasta", "wraps the sequence itself"), chk.repo.module("format/fasta.py").loc(wraps[0] if wraps else f2), "textwrap.wrap(str(seqs[name]), block_size)", "the FASTA writer no longer wraps the sequence it is writing")
-    chk.floor("R06.7", 2, "shared block helper + FASTA writer")
+    # the writers of the formats that also hold ragged collections lay each record out from ITS OWN sequence
+    for rel, q in (("format/gde.py", "GDEFormatter.format"), ("format/paml.py", "PamlFormatter.format")):
+        fm = chk.repo.module(rel)
+        ff = fm.func(q)
+        seeds = {t.id for st in walk_no_nested(ff) if isinstance(st, ast.Assign) and any(isinstance(x, ast.Subscript) and norm(x.value) == "alignment_dict" for x in ast.walk(st.value)) for t in st.targets if isinstance(t, ast.Name)}
+        dd = derived_names(ff, seeds) if seeds else set()
+        rngs = [c for c in walk_no_nested(ff) if isinstance(c, ast.Call) and call_name(c) == "range"]
+        helper = [c for c in walk_no_nested(ff) if isinstance(c, ast.Call) and (call_name(c) or "").split(".")[-1] in ("wrap_string_to_block_size", "slice_string_in_blocks", "wrap") and c.args and "alignment_dict[" in norm(c.args[0]) or (isinstance(c, ast.Call) and (call_name(c) or "").split(".")[-1] in ("wrap_string_to_block_size", "slice_string_in_blocks", "wrap") and c.args and expr_derives(c.args[0], dd))]
+        k = key(fm, q, "each record is laid out from its own sequence")
+        bad = None
+        for c in rngs:
+            stop = c.args[1] if len(c.args) >= 2 else c.args[0]
+            if not (expr_derives(stop, dd) or "alignment_dict[" in norm(stop)):
+                bad = (c, f"the block loop `{norm(c)}` is bounded by `{norm(stop)}`, not by the sequence being written")
+        if bad is None and not rngs and not helper:
+            bad = (ff, "neither the wrapping helper applied to alignment_dict[<name>] nor a loop bounded by the record's sequence was found")
+        if bad:
+            chk.violation("R06.7", k, fm.loc(bad[0]), bad[1] + ": in a ragged collection a sequence longer than the first one is silently truncated")
+        else:
+            chk.ok("R06.7", k, fm.loc(ff), "wrap helper applied to alignment_dict[<name>]" if helper else "loops bounded by the record's sequence")
+    chk.floor("R06.7", 4, "shared block helper + FASTA writer + GDE and PAML record layout")
 
 
 def _squeezes(e):
@@ -357,6 +384,50 @@ def r06_8(chk):
     if not got:
         raise AnalysisError("R06.8 self-probe failed: squeeze not traced to the yielded name")
     chk.floor("R06.8", 4, "yield sites of three parsers")
+
+
+def _cuts(e):
+    """does this expression return a PART of its text operand chosen by content (a delimiter)?"""
+    if isinstance(e, ast.Call) and isinstance(e.func, ast.Attribute) and e.func.attr in ("split", "rsplit", "partition", "rpartition", "findall", "match", "search", "group"):
+        return True
+    return False
+
+
+def r06_12(chk):
+    chk.rule("R06.12", "a PAML record's name is the whole (edge-trimmed) name line: the writer puts every name verbatim on a line of its own, so the parser's yielded name does not derive -- along reaching definitions -- from any content-dependent cut of that line (split / partition / regex match on a delimiter): a name that contains the delimiter, e.g. two consecutive blanks, would be cut there and the rest counted as sequence")
+    from ..slicing import Slicer
+
+    m = chk.repo.module("parse/paml.py")
+    fn = m.func("PamlParser")
+    sl = Slicer(m)
+    yields = [y for y in walk_no_nested(fn) if isinstance(y, ast.Yield) and isinstance(y.value, ast.Tuple) and len(y.value.elts) == 2]
+    if not yields:
+        raise AnalysisError("PamlParser: no `yield name, seq` found")
+    for y in yields:
+        hits = []
+        sl.origins(fn, sl.node_of(fn, y), y.value.elts[0], lambda e, f, hits=hits: hits.append((e, f)) if _cuts(e) else None)
+        k = key(m, "PamlParser", "name is the whole name line")
+        if hits:
+            e, f = hits[0]
+            chk.violation("R06.12", k, m.loc(e), f"the record name derives from `{norm(e)[:70]}`: the name line is cut at a delimiter, but the writer writes names verbatim (blanks included) on their own line")
+        else:
+            chk.ok("R06.12", k, m.loc(y), "the name derives from the trimmed line only")
+    if sl.unresolved:
+        chk.unresolved("R06.12", key(m, "PamlParser", "slice"), m.loc(fn), "; ".join(sl.unresolved[:3]))
+    # probe: a starred unpacking of a regex split must be traced to the name
+    probe_src = "def P(data):\n    name = None\n    for line in data:\n        line = line.strip()\n        if name is None:\n            name, *rest = PAT.split(line, maxsplit=1)\n            if not rest:\n                continue\n            line = rest[0]\n        yield name, line\n        name = None\n"
+    pm = ast.parse(probe_src).body[0]
+
+    class _M:
+        functions = {}
+
+    ps = Slicer(_M)
+    py = [y for y in ast.walk(pm) if isinstance(y, ast.Yield)][0]
+    got = []
+    ps.origins(pm, ps.node_of(pm, py), py.value.elts[0], lambda e, f: got.append(e) if _cuts(e) else None)
+    if not got:
+        raise AnalysisError("R06.12 self-probe failed: a split reaching the name through starred unpacking was not traced")
+    chk.floor("R06.12", 1, "one yield site")
 
 
 def r06_9(chk):
@@ -447,6 +518,7 @@ def r06_11(chk):
 
 
 def run(chk):
+    r06_12(chk)
     r06_11(chk)
     r06_10(chk)
     r06_9(chk)
